@@ -46,6 +46,7 @@ JudgeParse(e) ==
        ELSE IF ref.class = "reject" THEN IF e.out.k \in ref.errs THEN "ok-reject" ELSE "BAD-reject"
        ELSE IF (e.out.k = "Ok" \/ e.out.k \in ref.errs)
                /\ (e.out.k = "Ok" => \A i \in 1..Len(e.out.fields) : AsciiOk2(e.out.fields[i][1]) /\ AsciiOk2(e.out.fields[i][2]))
+               /\ (e.out.k = "Ok" /\ ref.lf.on => ref.lf.ref.class = "accept" /\ SameParse(e.out, ref.lf.ref))
                /\ (e.out.k = "Ok" /\ ref.faith.on => e.out.path = ref.faith.path /\ e.out.hasQuery = ref.faith.hasQuery
                                                        /\ e.out.query = ref.faith.query)
             THEN "ok-free" ELSE "BAD-free"
